@@ -741,6 +741,7 @@ theorem insert_emb (f : Fld K) (out : Arr K) (w : K) (post : K → K) (i j : Int
       out.get i j + (if f.extent.inb (i - out.s0 / 2) (j - out.s1 / 2)
                      then post (f.arr.get (i - out.s0 / 2 - f.extent.rmin) (j - out.s1 / 2 - f.extent.cmin)) * w else 0) := by
   unfold insertArr
+  simp only [insertTerm_eq]
   cases h : Gen.insertIdx f.arr.s0 f.arr.s1 f.o0 f.o1 out.s0 out.s1 with
   | none =>
     have := insertIdx_none _ _ _ _ _ _ h i j hi hj
@@ -785,6 +786,25 @@ theorem insert_fast_path (s0 s1 o0 o1 S0 S1 : Int) (hs : 0 < s0 ∧ 0 < s1)
 theorem insert_fast_iff (s0 s1 o0 o1 S0 S1 : Int) :
     Gen.insertFast s0 s1 o0 o1 S0 S1 = true ↔ (s0 = S0 ∧ s1 = S1) ∧ (o0 = 0 ∧ o1 = 0) := by
   unfold Gen.insertFast; simp only [Bool.and_eq_true, decide_eq_true_eq]
+
+/-- **the accumulation statements of `insert`, as generated from the source** (`Gen.insertAccumIntensity` from
+`out[out_slice] += np.abs(field.data[field_slice]**2) * weight`, `Gen.insertAccumField` from
+`out[out_slice] += field.data[field_slice] * weight`, `Gen.insertAccumInPlace` from the two `+=`): the intensity branch adds
+`|data|²·weight`, the field branch `data·weight`, both **in place**. `insertArr` evaluates the generated term
+(`insertTerm`), so dropping the weight, taking `|·|` instead of `|·|²`, or overwriting instead of accumulating changes a
+definition `insert_emb` depends on. -/
+theorem insert_accum_spec (nsq : K → K) (d w : K) :
+    Gen.insertAccumIntensity.eval nsq d w = nsq d * w ∧ Gen.insertAccumField.eval nsq d w = d * w ∧
+    Gen.insertAccumInPlace = (true, true) := ⟨rfl, rfl, rfl⟩
+
+/-- `insert` with the branch chosen by `intensity` as in the source (`insertArrMode`, what the correspondence driver runs) is
+`insertArr` with `post = |·|²` resp. `post = id`, so `insert_emb` covers both branches -/
+theorem insert_mode_eq (intensity : Bool) (nsq : K → K) (f : Fld K) (out : Arr K) (w : K) :
+    insertArrMode intensity nsq f out w = insertArr f out w (if intensity then nsq else id) := by
+  unfold insertArrMode insertArr
+  cases Gen.insertIdx f.arr.s0 f.arr.s1 f.o0 f.o1 out.s0 out.s1 with
+  | none => rfl
+  | some v => cases intensity <;> rfl
 
 /-- the shape of the target never changes -/
 theorem insert_shape (f : Fld K) (out : Arr K) (w : K) (post : K → K) :
